@@ -88,6 +88,14 @@ Shr(bs, k) == [i \in 1..64 |-> IF i - k >= 1 THEN bs[i - k] ELSE 0]      \* only
 Rol(bs, k) == [i \in 1..64 |-> bs[((i - 1 + k) % 64) + 1]]
 Ror(bs, k) == [i \in 1..64 |-> bs[((i - 1 - k + 64) % 64) + 1]]
 
+\* 64-bit ripple-carry addition (bit 64 is the least significant); used where an operand is beyond 32 bits
+RECURSIVE AddBits(_, _, _, _)
+AddBits(a, b, i, carry) == IF i = 0 THEN <<>>
+                           ELSE LET x == a[i] + b[i] + carry IN Append(AddBits(a, b, i - 1, x \div 2), x % 2)
+BitsAdd(a, b) == AddBits(a, b, 64, 0)
+MinBits == [i \in 1..64 |-> IF i = 1 THEN 1 ELSE 0]
+BitsNeg(b) == BitsAdd(Flip(b), Bits(1))
+
 TruncDiv(a, b) == LET q == Abs(a) \div Abs(b) IN IF (a >= 0) = (b >= 0) THEN q ELSE -q
 TruncMod(a, b) == a - b * TruncDiv(a, b)
 
@@ -244,11 +252,13 @@ Ev(e, S, ctx) ==
 -----------------------------------------------------------------------------
 (* ASSIGNMENT OPERATORS.  Apply(vt, op, l, r, isHdr) = new value of the     *)
 (* target of declared type vt holding l when `set target op r` executes.   *)
-IntOp(op, l, r) ==
-  IF r.t \notin {"INT", "BITS"} THEN
-       \* FLOAT -> INTEGER truncates toward zero; other mixed forms are not in the reference
-       (IF op = "=" /\ r.t = "FLOAT" THEN MkInt(FTrunc(r)) ELSE UnspecV)
-  ELSE IF op = "=" THEN r
+\* exact 64-bit sum / difference of two INTEGER values of any size; a result outside 64 bits is out of range
+AddV(l, r) == LET a == BitsOf(l)  b == BitsOf(r)  x == BitsAdd(a, b) IN
+              IF a[1] = b[1] /\ x[1] # a[1] THEN OorV ELSE NormInt(x)
+SubV(l, r) == IF BitsOf(r) = MinBits THEN OorV ELSE AddV(l, NormInt(BitsNeg(BitsOf(r))))
+
+IntInt(op, l, r) ==       \* INTEGER op= INTEGER
+  IF op = "=" THEN r
   ELSE IF op \in {"|=", "&=", "^="} THEN
        NormInt(Zip(BitsOf(l), BitsOf(r), LAMBDA x, y : IF op = "|=" THEN BOr(x, y) ELSE IF op = "&=" THEN BAnd(x, y) ELSE BXor(x, y)))
   ELSE IF op \in {"<<=", ">>=", "rol=", "ror="} THEN
@@ -257,13 +267,39 @@ IntOp(op, l, r) ==
                [] op = ">>="  -> IF r.i < 0 \/ r.i > 63 \/ BitsOf(l)[1] = 1 THEN UnspecV ELSE NormInt(Shr(BitsOf(l), r.i))
                [] op = "rol=" -> IF r.i < 0 \/ r.i > 64 THEN UnspecV ELSE NormInt(Rol(BitsOf(l), r.i))
                [] op = "ror=" -> IF r.i < 0 \/ r.i > 64 THEN UnspecV ELSE NormInt(Ror(BitsOf(l), r.i)))
+  ELSE IF op = "+=" THEN AddV(l, r)
+  ELSE IF op = "-=" THEN SubV(l, r)
   ELSE IF l.t = "BITS" \/ r.t = "BITS" THEN OorV
-  ELSE CASE op = "+=" -> MkInt(l.i + r.i)
-         [] op = "-=" -> MkInt(l.i - r.i)
-         [] op = "*=" -> IF Abs(l.i) >= 32768 \/ Abs(r.i) >= 32768 THEN OorV ELSE MkInt(l.i * r.i)
+  ELSE CASE op = "*=" -> IF Abs(l.i) >= 32768 \/ Abs(r.i) >= 32768 THEN OorV ELSE MkInt(l.i * r.i)
          [] op = "/=" -> IF r.i = 0 THEN ErrV ELSE IntV(TruncDiv(l.i, r.i))
          [] op = "%=" -> IF r.i = 0 THEN ErrV ELSE IntV(TruncMod(l.i, r.i))
          [] OTHER     -> UnspecV
+
+(* INTEGER op= FLOAT (the operand must be a variable - a FLOAT literal is not accepted for an INTEGER target).       *)
+(* CONVERSION ORDER taken as the requirement:                                                                          *)
+(*   =  +=  -=  %=   the operand is first converted to the type of the target by the one documented FLOAT -> INTEGER  *)
+(*                   conversion (truncation toward zero, as for `=`), then the operator is applied in INTEGER.  Why:  *)
+(*                   an assignment operator is typed by its target; with this order `i -= f` and `i += -f` agree for  *)
+(*                   every sign combination (10 += -2.5 is 8, -10 += 2.5 is -8) and integers beyond 2^53 stay exact -  *)
+(*                   computing the sum in binary64 and truncating it afterwards has neither property.                  *)
+(*   *=  /=          scaling: the exact rational product / quotient, then truncated toward zero.  Why: the purpose of *)
+(*                   a FLOAT factor is a fraction (i *= 0.5 halves; truncating the factor first would annihilate the   *)
+(*                   value and turn i /= 0.5 into a division by zero); the same rule scales RTIME by a FLOAT.          *)
+(*                   Defined here only where the exact result is representable (|i| < 2^15).                          *)
+(*   bitwise, shift and rotate operators take INTEGER operands only: UNSPEC.                                           *)
+IntFloat(op, l, r) ==
+  IF op \in {"=", "+=", "-=", "%="} THEN
+       (LET t == MkInt(FTrunc(r)) IN IF Bad(t) THEN t ELSE IntInt(op, l, t))
+  ELSE IF op \in {"*=", "/="} THEN
+       (IF l.t = "BITS" \/ Abs(l.i) >= 32768 \/ Abs(r.n) >= 32768 THEN OorV
+        ELSE IF op = "*=" THEN MkInt(TruncDiv(l.i * r.n, Pow2(r.e)))
+        ELSE IF r.n = 0 THEN ErrV ELSE MkInt(TruncDiv(l.i * Pow2(r.e), r.n)))
+  ELSE UnspecV
+
+IntOp(op, l, r) ==
+  CASE r.t \in {"INT", "BITS"} -> IntInt(op, l, r)
+    [] r.t = "FLOAT"           -> IntFloat(op, l, r)
+    [] OTHER                   -> UnspecV
 
 FloatOp(op, l, r) ==
   IF ~IsNum(r) THEN (IF r.t = "BITS" THEN OorV ELSE UnspecV)
@@ -278,7 +314,11 @@ FloatOp(op, l, r) ==
 
 RTimeOp(op, l, r) ==
   CASE op \in {"=", "+=", "-="} ->
-         IF r.t # "RTIME" THEN UnspecV
+         \* an INTEGER operand (a variable) counts seconds: converted to the target type first, as for INTEGER targets;
+         \* FLOAT operands of the additive operators are left unspecified (falco's `=` and `+=` disagree about the unit)
+         IF r.t = "INT" THEN (IF Abs(r.i) >= 500000 THEN OorV
+                              ELSE MkRTime(IF op = "=" THEN r.i * 1000 ELSE IF op = "+=" THEN l.ms + r.i * 1000 ELSE l.ms - r.i * 1000))
+         ELSE IF r.t # "RTIME" THEN (IF r.t = "BITS" THEN OorV ELSE UnspecV)
          ELSE MkRTime(IF op = "=" THEN r.ms ELSE IF op = "+=" THEN l.ms + r.ms ELSE l.ms - r.ms)
     [] op = "*=" ->
          IF r.t = "INT" THEN (IF Abs(l.ms) >= 32768 * 16 \/ Abs(r.i) >= 2048 THEN OorV ELSE MkRTime(l.ms * r.i))
